@@ -25,6 +25,12 @@ deriving DecidableEq, Repr, Inhabited
 /-- the `-replace-mode` argument -/
 inductive ModeArg where
   | absent | new | nothing | overwrite | bogus
+  /-- the flag given with an empty value (`-replace-mode ""`, `-replace-mode=`) -/
+  | empty
+  /-- a documented name in lower case (`new`) -/
+  | lower
+  /-- the name of an engine mode that is not a mode of the tool (`CONFIRM`) -/
+  | confirm
 deriving DecidableEq, Repr, Inhabited
 
 /-- the `-files` argument: not given; a plain name; a pattern matching several files; a
@@ -134,6 +140,9 @@ def ModeArg.value : ModeArg → String
   | .nothing => "NOTHING"
   | .overwrite => "OVERWRITE"
   | .bogus => "bogus"
+  | .empty => ""
+  | .lower => "new"
+  | .confirm => "CONFIRM"
 
 def lookupStr (k : String) : List (String × String) → Option String
   | [] => none
@@ -153,6 +162,9 @@ structure Env where
   mNothing : Option Mode
   mOverwrite : Option Mode
   mBogus : Option Mode
+  mEmpty : Option Mode
+  mLower : Option Mode
+  mConfirm : Option Mode
   creates : Bool      -- O_CREATE
   writable : Bool     -- O_RDWR or O_WRONLY
   truncOpen : Bool    -- O_TRUNC
@@ -165,11 +177,15 @@ def Env.parse (e : Env) : ModeArg → Option Mode
   | .nothing => e.mNothing
   | .overwrite => e.mOverwrite
   | .bogus => e.mBogus
+  | .empty => e.mEmpty
+  | .lower => e.mLower
+  | .confirm => e.mConfirm
 
 /-- main.go as it is now -/
 def goEnv : Env :=
   let p := parseModeWith goModeDefault goModeCases
   { mAbsent := p .absent, mNew := p .new, mNothing := p .nothing, mOverwrite := p .overwrite, mBogus := p .bogus,
+    mEmpty := p .empty, mLower := p .lower, mConfirm := p .confirm,
     creates := goOpenFlags.contains "O_CREATE",
     writable := goOpenFlags.contains "O_RDWR" || goOpenFlags.contains "O_WRONLY",
     truncOpen := goOpenFlags.contains "O_TRUNC",
